@@ -35,6 +35,11 @@ type C07Op struct {
 	// ArgForm: how the directory is named on the call: 0 absolute, 1 relative to the working
 	// directory, 2 "./"-prefixed relative, 3 absolute with a trailing slash
 	ArgForm int `json:"arg_form,omitempty"`
+	// ReuseDirOf: k+1 = scan again the directory that operation k of this process scanned (same
+	// path, same pass kind), after file Extra has been added inside its first sub-directory (the
+	// top directory's own entry list, and so its mtime, stays as it was)
+	ReuseDirOf int `json:"reuse_dir_of,omitempty"`
+	Extra      int `json:"extra,omitempty"`
 }
 
 type C07Proc struct {
@@ -92,6 +97,7 @@ func c07Options(t *tape.Tape, thorough bool) gen.Options {
 	o.TwinNames = t.Bool(1, 3)
 	o.SamePkgConflict = t.Bool(1, 2)
 	o.ServiceMethod = t.Bool(1, 2)
+	o.Enums = t.Bool(1, 3)
 	o.Nested = t.Bool(1, 3) // differential oracle: shapes beyond the conventional subset cost nothing
 	return o
 }
@@ -137,6 +143,23 @@ func genHistory(t *tape.Tape, nFiles int, thorough bool, passes []string) []C07P
 				}
 				if t.Bool(1, 3) {
 					op.ArgForm = t.Int(1, 3)
+				}
+				if (op.Pass == "bs" || op.Pass == "api") && t.Bool(1, 5) {
+					for k := len(proc.Ops) - 1; k >= 0; k-- {
+						already := false
+						for _, o2 := range proc.Ops {
+							if o2.ReuseDirOf == k+1 {
+								already = true // one re-scan per directory
+							}
+						}
+						if proc.Ops[k].Pass == op.Pass && proc.Ops[k].ReuseDirOf == 0 && !already {
+							op.ReuseDirOf = k + 1
+							op.Extra = t.Pick(nFiles)
+							op.ArgForm = proc.Ops[k].ArgForm
+							op.Noise = 0
+							break
+						}
+					}
 				}
 			}
 			proc.Ops = append(proc.Ops, op)
@@ -659,6 +682,7 @@ func (C07) Run(ctx *sim.RunCtx, data json.RawMessage) (*sim.Outcome, error) {
 			dir   string
 		}
 		var dl []delivered
+		var procIdx []int // index in proc.Ops of the operation that realises p.Ops[i]
 		for _, op := range p.Ops {
 			var files []int
 			for _, fi := range op.Files {
@@ -688,10 +712,24 @@ func (C07) Run(ctx *sim.RunCtx, data json.RawMessage) (*sim.Outcome, error) {
 					proc.Ops = append(proc.Ops, sim.Op{Op: "full", Args: map[string]interface{}{"ident": identFile, "files": paths}})
 				}
 			case "bs", "api":
-				dir := r.newDir()
-				for pos, fi := range files {
-					if _, err := r.place(dir, pos, fi); err != nil {
-						return nil, sim.Harness("%v", err)
+				dir := ""
+				if k := op.ReuseDirOf - 1; k >= 0 && k < len(dl) && dl[k].dir != "" && len(dl[k].files) > 0 && op.Extra < n && !excluded[op.Extra] {
+					// the same directory again, one file richer below its first sub-directory
+					dir = dl[k].dir
+					first := dl[k].files[0]
+					xp := filepath.Join(dir, fmt.Sprintf("%02d_%s", 0, sc.Files[first].ID), "Zextra"+sc.Files[op.Extra].ID+".java")
+					// the file appears between the two scans: written by the process itself at this point of its script
+					proc.Ops = append(proc.Ops, sim.Op{Op: "writeFile", Args: map[string]interface{}{"path": xp, "text": sc.Files[op.Extra].Text}})
+					r.paths[xp] = "<" + sc.Files[op.Extra].ID + ">"
+					files = append([]int{first, op.Extra}, dl[k].files[1:]...)
+					d.files = files
+					out.Faults["dir-rescanned-after-nested-change"]++
+				} else {
+					dir = r.newDir()
+					for pos, fi := range files {
+						if _, err := r.place(dir, pos, fi); err != nil {
+							return nil, sim.Harness("%v", err)
+						}
 					}
 				}
 				d.dir = dir
@@ -722,6 +760,7 @@ func (C07) Run(ctx *sim.RunCtx, data json.RawMessage) (*sim.Outcome, error) {
 				return nil, sim.Harness("unknown pass %q", op.Pass)
 			}
 			dl = append(dl, d)
+			procIdx = append(procIdx, len(proc.Ops)-1)
 		}
 		hist = append(hist, "|")
 		res, err := ctx.Run(proc)
@@ -737,11 +776,12 @@ func (C07) Run(ctx *sim.RunCtx, data json.RawMessage) (*sim.Outcome, error) {
 		out.ScheduleHashes = append(out.ScheduleHashes, res.EventHash)
 		for oi, op := range p.Ops {
 			where := fmt.Sprintf("process %d op %d (%s)", pi, oi, op.Pass)
-			if !res.Completed(oi) {
+			ri := procIdx[oi]
+			if !res.Completed(ri) {
 				add(op.Pass+"/history-run-ends-process", fmt.Sprintf("%s: the process ended with %q although every file passes alone\n%s", where, res.Ended, firstLines(res.Stderr, 8)), map[string]string{"pass": op.Pass, "clause": "ends-process"})
 				break
 			}
-			rec := res.Records[oi]
+			rec := res.Records[ri]
 			files := dl[oi].files
 			if oi > 0 {
 				out.Faults["no-restart"]++
